@@ -15,4 +15,13 @@ NOTE = {
 
 
 def run(prop, tier, seed, replay):
-    return routing.run_property(prop, tier, seed, NOTE[prop])
+    if prop != "C04":
+        return routing.run_property(prop, tier, seed, NOTE[prop])
+
+    def replies_too(rep):      # a reply is a message of kind `reply`: it must run a reply handler and no handler of another kind
+        from . import replies
+        qp = replies.pipeline(tier, seed)
+        qv = replies.validate(prop, qp, rep)
+        return {"reply_programs_compiled": len(qp["progs"]), "reply_trace_events": qv["events"]}
+    return routing.run_property(prop, tier, seed, NOTE[prop] + "; replies delivered to the reply entry point of programs that also have a handler of "
+                                "another kind called `reply` (legacy program L3)", extra=replies_too)
